@@ -11,7 +11,7 @@ Sc == Traces[tid].scenario
 Unanswered(i) == Sc.script[i] \in {"none", "late", "gone"}
 AllUnanswered == \A i \in 1..Sc.retries : Unanswered(i)
 FirstAnswered == IF AllUnanswered THEN 0 ELSE CHOOSE i \in 1..Sc.retries : ~Unanswered(i) /\ \A j \in 1..(i - 1) : Unanswered(j)
-St0 == [opened |-> {}, closed |-> {}, sent |-> 0, discarded |-> 0, lastSend |-> 0, firstData |-> <<>>, firstAt |-> 0, got |-> FALSE, errAt |-> 0, erred |-> FALSE,
+St0 == [opened |-> {}, closed |-> {}, sent |-> 0, discarded |-> 0, lastSend |-> 0, firstData |-> <<>>, firstAt |-> 0, got |-> FALSE, errAt |-> 0, erred |-> FALSE, errTimes |-> {},
         ret |-> [none |-> TRUE], retAt |-> 0]
 (* The clauses are written against what crossed the seam - transmissions, and what reached an OPEN socket of the call (deliver / error /
    lost are only logged then) - not against how many sockets the sender uses: a sender that opens one socket per attempt and one that
@@ -31,8 +31,8 @@ On(s, e) ==
          [st |-> [s EXCEPT !.discarded = @ + 1, !.lastSend = e.t], cl |-> << <<"retransmission_never_reaches_wire", Has(e, "by") /\ e.by = "env">> >>]
     [] e.e = "deliver" -> [st |-> IF s.got THEN s ELSE [s EXCEPT !.got = TRUE, !.firstData = e.data, !.firstAt = e.t], cl |-> <<>>]
     [] e.e = "dropped" -> [st |-> s, cl |-> <<>>]
-    [] e.e = "error" -> [st |-> IF s.erred THEN s ELSE [s EXCEPT !.erred = TRUE, !.errAt = e.t], cl |-> <<>>]
-    [] e.e = "lost" -> [st |-> [(IF s.erred THEN s ELSE [s EXCEPT !.erred = TRUE, !.errAt = e.t]) EXCEPT !.closed = @ \cup {e.k}], cl |-> <<>>]
+    [] e.e = "error" -> [st |-> [(IF s.erred THEN s ELSE [s EXCEPT !.erred = TRUE, !.errAt = e.t]) EXCEPT !.errTimes = @ \cup {e.t}], cl |-> <<>>]
+    [] e.e = "lost" -> [st |-> [(IF s.erred THEN s ELSE [s EXCEPT !.erred = TRUE, !.errAt = e.t]) EXCEPT !.closed = @ \cup {e.k}, !.errTimes = @ \cup {e.t}], cl |-> <<>>]
     [] e.e \in {"close", "abort", "gone"} -> [st |-> [s EXCEPT !.closed = @ \cup {e.k}], cl |-> <<>>]
     [] e.e = "ret" ->
          \* judged by KIND of outcome against what reached an open socket of the call before the return.  The property does not say what an
@@ -49,9 +49,9 @@ On(s, e) ==
                          <<"timeout_at_wrong_time", e.t = Sc.retries * Sc.timeout>>,
                          <<"fewer_transmissions_than_retries", s.sent + s.discarded = Sc.retries>> >>
                  ELSE << <<"timeout_not_raised", s.erred>>,                              \* another exception needs an OS error / lost connection as its cause
-                         <<"returned_not_first_reply", ~dataFirst>>,
+                         <<"returned_not_first_reply", ~s.got \/ s.firstAt >= e.t>>,    \* no datagram had reached the call before
                          <<"os_error_swallowed", e.cls # "Timeout">>,
-                         <<"returned_late", e.t = s.errAt>> >>]
+                         <<"returned_late", e.t \in s.errTimes>> >>]       \* it is raised when (one of) the error(s) is reported
     [] e.e = "settled" ->
          [st |-> s, cl |-> << <<"socket_left_open", s.opened \subseteq s.closed>>,
                               <<"call_never_returned", ~Has(s.ret, "none")>> >>]
